@@ -1,5 +1,5 @@
-\* leg A: repaired design (prefer delivered reply; t.m section before closeOnce), code's retry policy
-SPECIFICATION FairSpec
+\* leg A (quick): repaired design (prefer delivered reply; t.m section before closeOnce), code's retry policy
+SPECIFICATION Spec
 CONSTANTS
   NCalls = 2
   MaxDials = 2
@@ -8,11 +8,12 @@ CONSTANTS
   RandomSelect = FALSE
   LockInOnce = FALSE
   MaxFaults = 2
+  Kinds = {"eof", "silent"}
+  OrderedStart = TRUE
   CancelCalls = {1}
   EnvTClose = TRUE
   Coarse = TRUE
   WithHist = FALSE
 VIEW ViewNoHist
 INVARIANTS TypeOK FailOnlyWhen AttemptsBounded NoLoss ErrOnFault ClosedRejects CloseWakesAll ArmedIsShortWhenOwed OneAtATime IdleSound NoLockCycle
-
 CHECK_DEADLOCK FALSE
